@@ -22,7 +22,8 @@ import (
 //	    `allFinished := ah.isStartFinished() && ah.awaitedInstances >= ah.startedInstances; if !allFinished { return }`
 //	        -> gen_check_guard_is_model; the cancel functions called after it -> gen_check_calls
 //	(*instancePool).runAsync: `R, runCancel := context.WithCancel(..)`, `S, instanceStartCancel := context.WithCancel(R)`,
-//	    p.Aggregator.Run(R, ..), p.Provider.Run(R, ..) -> gen_aggr_ctx_is_run, gen_prov_ctx_is_run, gen_start_ctx_child_of_run
+//	    p.Aggregator.Run(R, ..), p.Provider.Run(R, ..) -> gen_aggr_ctx_is_run, gen_prov_ctx_is_run, gen_start_ctx_child_of_run;
+//	    p.buildNewInstanceSchedule(S, instanceStartCancel) -> gen_sched_fin_cancels_start (the model's ESchedFin)
 //	the functions of the file that call runCancel() -> gen_run_cancel_sites_only_check
 //
 // Anything outside this grammar is an error (the tie is reported broken).
@@ -243,6 +244,14 @@ func genAwaitRun(repo, out string) error {
 		})
 		return arg
 	}
+	// the cancel function handed to buildNewInstanceSchedule (called when the shared RPS schedule has finished)
+	schedCancel := ""
+	ast.Inspect(ra.Body, func(n ast.Node) bool {
+		if call, ok := n.(*ast.CallExpr); ok && exprText(call.Fun) == "p.buildNewInstanceSchedule" && len(call.Args) == 2 {
+			schedCancel = exprText(call.Args[1])
+		}
+		return true
+	})
 	only, sites, err := runCancelSites(path)
 	if err != nil {
 		return err
@@ -264,6 +273,8 @@ func genAwaitRun(repo, out string) error {
 		runCtx, startParent, firstArgOf("p.Aggregator.Run"), firstArgOf("p.Provider.Run"))
 	fmt.Fprintf(&b, "Definition gen_aggr_ctx_is_run : bool := %v.\nDefinition gen_prov_ctx_is_run : bool := %v.\nDefinition gen_start_ctx_child_of_run : bool := %v.\n",
 		firstArgOf("p.Aggregator.Run") == runCtx, firstArgOf("p.Provider.Run") == runCtx, startParent == runCtx)
+	fmt.Fprintf(&b, "(* runAsync hands %s to buildNewInstanceSchedule as the function to call when the shared RPS schedule has finished *)\nDefinition gen_sched_fin_cancels_start : bool := %v.\n",
+		schedCancel, schedCancel == "instanceStartCancel")
 	fmt.Fprintf(&b, "(* the functions of engine.go that call runCancel(): %s *)\nDefinition gen_run_cancel_sites_only_check : bool := %v.\n", strings.Join(sites, ", "), only)
 	return os.WriteFile(out, []byte(b.String()), 0o644)
 }
